@@ -44,6 +44,7 @@ cfg('MC_MethylationMatrix_unaligned_q.cfg', maxobs=2, jobspan=1, variant='unalig
 cfg('MC_MethylationMatrix_mut_swap_um_q.cfg', maxobs=1, variant='mut_swap_um')
 cfg('MC_MethylationMatrix_mut_prune_le_q.cfg', maxobs=2, jobk=1, variant='mut_prune_le')
 cfg('MC_MethylationMatrix_impl_q.cfg', maxobs=2, dyad=True, revs=(False, True), maxpos=2, maxpost=1, postks=(-1, 0, 1, 2), variant='impl')
+cfg('MC_MethylationMatrix_impl_asfound_q.cfg', maxobs=1, maxpost=1, postks=(-1, 0, 1, 2), variant='impl_asfound')
 # scenario generators (spec -> code): _q small exhaustive sets, _t larger ones (sampled by the check)
 cfg('MC_MethylationMatrix_gen_count_q.cfg', maxobs=3, maxtouch=0, gen=True)
 cfg('MC_MethylationMatrix_gen_prune_q.cfg', maxobs=2, maxtouch=1, jobk=1, jobmv=0, gen=True)
